@@ -195,7 +195,8 @@ def cases(draw, tier):
         else:
             # scalings far beyond the unit box as well: an absolute threshold (an epsilon, a unit-box
             # assumption) shows only when the box is that small or that large
-            k = draw(st.one_of(st.integers(-20, 20), st.integers(-60, 60), st.sampled_from([-52, -50, -48, -46, -44, 48, 52])))
+            k = draw(st.one_of(st.integers(-20, 20), st.integers(-60, 60), st.sampled_from([-52, -50, -48, -46, -44, 48, 52]),
+                                 st.integers(-1000, 900), st.sampled_from([-545, -560, -700, 600])))
             case["map"] = {"a": 2.0 ** k, "t": 0.0, "class": "exact"}
     else:
         case["map"] = {"a": draw(st.floats(0.01, 100.0)), "t": draw(st.floats(-1000.0, 1000.0)), "class": "tol"}
